@@ -41,6 +41,7 @@ type Config struct {
 	InitMsgs          []string // types of messages pre-stored under numbers 1..len (sender side)
 	RefuseResend      map[int]bool
 	VirtualTimers     bool
+	Timed             bool // virtual clock: tick events, timers fire only when due
 	SenderSub         string
 	TargetSub         string
 }
@@ -253,6 +254,9 @@ type World struct {
 	LastIn      *fixscan.Msg // last materialised inbound message (nil for garbage)
 	LastInT     int          // expected inbound number just before it was delivered
 	dir         string       // file-store directory of this world
+	VNow        time.Duration // virtual clock (Timed mode)
+	DeadS       time.Duration // virtual deadline of the heartbeat timer
+	DeadP       time.Duration // virtual deadline of the peer timer
 	Restarts    int
 }
 
@@ -381,8 +385,14 @@ func (w *World) boot(first bool) error {
 	vs.BufferSessionEvents(64)
 	vs.SetTimeouts(time.Nanosecond, time.Nanosecond)
 	vs.SetVirtualTimers(
-		func(d time.Duration) { w.ArmS, w.DurS = true, d; w.log = append(w.log, Obs{K: "armS", D: d}) },
-		func(d time.Duration) { w.ArmP, w.DurP = true, d; w.log = append(w.log, Obs{K: "armP", D: d}) })
+		func(d time.Duration) {
+			w.ArmS, w.DurS, w.DeadS = true, d, w.VNow+d
+			w.log = append(w.log, Obs{K: "armS", D: d})
+		},
+		func(d time.Duration) {
+			w.ArmP, w.DurP, w.DeadP = true, d, w.VNow+d
+			w.log = append(w.log, Obs{K: "armP", D: d})
+		})
 	// initial counters / history (set on the real store below the recorder)
 	inner := w.store.MessageStore
 	if first {
@@ -594,9 +604,9 @@ func (w *World) Enabled(e *Event) bool {
 	case "to":
 		switch e.To {
 		case quickfix.VerifNeedHeartbeat:
-			return w.ArmS
+			return w.ArmS && (!w.Cfg.Timed || w.DeadS <= w.VNow)
 		case quickfix.VerifPeerTimeout:
-			return w.ArmP
+			return w.ArmP && (!w.Cfg.Timed || w.DeadP <= w.VNow)
 		case quickfix.VerifLogonTimeout:
 			return sn.State == "logon" && w.Cfg.Initiator
 		case quickfix.VerifLogoutTimeout:
@@ -606,6 +616,9 @@ func (w *World) Enabled(e *Event) bool {
 		return !sn.PendingStop
 	case "restart":
 		return !sn.Connected && w.dir != ""
+	case "tick":
+		// time cannot pass a due timer
+		return w.Cfg.Timed && !(w.ArmS && w.DeadS <= w.VNow) && !(w.ArmP && w.DeadP <= w.VNow)
 	case "send":
 		return !sn.Stopped
 	}
@@ -662,6 +675,8 @@ func (w *World) Apply(e *Event) (obs []Obs) {
 		}
 	case "stop":
 		w.VS.StopReq()
+	case "tick":
+		w.VNow += w.TickUnit()
 	case "restart":
 		w.Restarts++
 		if err := w.Restart(); err != nil {
@@ -669,6 +684,15 @@ func (w *World) Apply(e *Event) (obs []Obs) {
 		}
 	}
 	return
+}
+
+// TickUnit is one fifth of the session's current heartbeat interval.
+func (w *World) TickUnit() time.Duration {
+	hb := w.VS.HeartBtInt()
+	if hb <= 0 {
+		hb = 30 * time.Second
+	}
+	return hb / 5
 }
 
 // drain moves everything written to the outbound channel into the log.
@@ -703,6 +727,7 @@ func (w *World) Key() string {
 	fmt.Fprintf(&sb, "%s|T%d|S%d|st%v%v|re%d,%d|sr%v|q%d|ps%v%v|o%v|i%v|me%d|hb%d|a%v%v|c%v|M%s",
 		sn.State, w.T(), w.S(), sn.Stash, sn.StashTypes, sn.ResendEnd, sn.CurResendEnd, sn.SentReset, sn.ToSend,
 		sn.PendingStop, sn.Stopped, sn.OutNil, sn.InNil, sn.MsgEvent, int(sn.HeartBtInt/time.Second), w.ArmS, w.ArmP, w.OutOpen, w.StoredTypes())
+	sb.WriteString(w.timeKey())
 	return sb.String()
 }
 
@@ -725,6 +750,7 @@ func (w *World) RelKey() string {
 	fmt.Fprintf(&sb, "%s|T1%v|S1%v|st%v%v|re%d,%d|sr%v|q%d|ps%v%v|o%v|i%v|me%d|hb%d|a%v%v|c%v|M",
 		sn.State, T == 1, S == 1, st, sn.StashTypes, rel(sn.ResendEnd), rel(sn.CurResendEnd), sn.SentReset, sn.ToSend,
 		sn.PendingStop, sn.Stopped, sn.OutNil, sn.InNil, sn.MsgEvent, int(sn.HeartBtInt/time.Second), w.ArmS, w.ArmP, w.OutOpen)
+	sb.WriteString(w.timeKey())
 	keys := make([]int, 0, len(w.store.types))
 	for k := range w.store.types {
 		keys = append(keys, k)
@@ -734,6 +760,23 @@ func (w *World) RelKey() string {
 		fmt.Fprintf(&sb, "%d%s,", k-S, w.store.types[k])
 	}
 	return sb.String()
+}
+
+func (w *World) timeKey() string {
+	if !w.Cfg.Timed {
+		if w.VS.Snapshot().HBDue {
+			return "|hbdue"
+		}
+		return ""
+	}
+	u := w.TickUnit()
+	rel := func(armed bool, d time.Duration) int {
+		if !armed {
+			return -99
+		}
+		return int((d - w.VNow) / u)
+	}
+	return fmt.Sprintf("|dl%d,%d,%v", rel(w.ArmS, w.DeadS), rel(w.ArmP, w.DeadP), w.VS.Snapshot().HBDue)
 }
 
 // Log returns the full ordered observation log.
